@@ -628,6 +628,108 @@ func runTrial(k *vf.Case) {
 	}
 }
 
+// runInterruptedInstall: the installation is cut short by the application's own fail-fast error handler (it
+// panics, or ends the goroutine) when the SDK rejects an instrument that was created through the global API
+// before. The application carries on: later use of the global metric API neither blocks nor is left unconnected.
+func runInterruptedInstall(k *vf.Case) {
+	r := k.R
+	ctx := context.Background()
+	mode := r.Intn(2)
+	otel.SetErrorHandler(otel.ErrorHandlerFunc(func(err error) {
+		if mode == 0 {
+			panic(err)
+		}
+		runtime.Goexit()
+	}))
+	preProvider := otel.GetMeterProvider()
+	nMeters := 1 + r.Intn(3)
+	badMeter, badPos := r.Intn(nMeters), r.Intn(4)
+	var pre []metric.Meter
+	for mi := 0; mi < nMeters; mi++ {
+		m := otel.Meter(fmt.Sprintf("pre-%d", mi))
+		pre = append(pre, m)
+		for i := 0; i < 4; i++ {
+			name := fmt.Sprintf("ok.%d.%d", mi, i)
+			if mi == badMeter && i == badPos {
+				name = "0 not a valid instrument name!" // accepted by the placeholder, rejected by the SDK
+			}
+			switch r.Intn(3) {
+			case 0:
+				m.Int64Counter(name)
+			case 1:
+				m.Float64Histogram(name)
+			default:
+				m.Int64ObservableGauge(name)
+			}
+		}
+	}
+	rdr := sdkmetric.NewManualReader()
+	mp := sdkmetric.NewMeterProvider(sdkmetric.WithReader(rdr))
+	installed := make(chan any, 1)
+	go func() {
+		var rec any = "goroutine ended"
+		defer func() { installed <- rec }()
+		defer func() {
+			if p := recover(); p != nil {
+				rec = p
+			}
+		}()
+		otel.SetMeterProvider(mp)
+		rec = nil
+	}()
+	if rec := <-installed; rec == nil {
+		k.C.Count("installs_not_interrupted", 1)
+	} else {
+		k.C.Count("installs_interrupted", 1)
+	}
+	otel.SetErrorHandler(otel.ErrorHandlerFunc(func(error) {}))
+	finished, stuck, desc := vf.Watch(8*time.Second, 2*time.Second, func() {
+		for mi, m := range pre {
+			if c, err := m.Int64Counter("post.on.pre.meter"); err == nil {
+				c.Add(ctx, int64(mi+1))
+			}
+		}
+		c1, _ := otel.Meter("post-global").Int64Counter("post.counter")
+		c1.Add(ctx, 1)
+		c2, _ := preProvider.Meter("post-handle").Int64Counter("post.counter")
+		c2.Add(ctx, 1)
+	})
+	if !finished {
+		if stuck {
+			k.Violate("deadlock", "after an installation interrupted by the error handler", desc, nil)
+		} else {
+			k.C.Inconclusive("interrupted-install case did not finish within the watchdog")
+		}
+		return
+	}
+	var rm metricdata.ResourceMetrics
+	if err := rdr.Collect(ctx, &rm); err != nil {
+		k.Violate("collect-error", "interrupted install", err.Error(), nil)
+		return
+	}
+	got := map[string]int64{}
+	for _, sm := range rm.ScopeMetrics {
+		for _, md := range sm.Metrics {
+			if sum, ok := md.Data.(metricdata.Sum[int64]); ok {
+				for _, dp := range sum.DataPoints {
+					got[sm.Scope.Name+"/"+md.Name] += dp.Value
+				}
+			}
+		}
+	}
+	// (meters the interrupted installation had not reached yet stay where the application's handler left them;
+	// only calls made through the provider are held to reach the SDK)
+	want := map[string]int64{"post-global/post.counter": 1, "post-handle/post.counter": 1}
+	for key, v := range want {
+		if got[key] != v {
+			k.Violate("measurement-after-install-lost", "after an installation interrupted by the error handler", fmt.Sprintf("mode=%d: %s: SDK holds %d, recorded %d (all: %v)", mode, key, got[key], v, got), nil)
+			return
+		}
+	}
+	k.C.Count("interrupted_install_trials", 1)
+	k.C.Sig(fmt.Sprintf("interrupted|%d|%d|%d", mode, nMeters, badPos))
+}
+
 func irOrMax(v uint64) uint64 {
 	if v == 0 {
 		return ^uint64(0)
@@ -643,6 +745,9 @@ func main() {
 		otel.SetLogger(logr.Discard())
 		n := c.N(480, 10_000)
 		c.Isolated("trials", n, vf.IsoOpts{Batch: 1, Par: 16, Timeout: 90 * time.Second}, runTrial)
+		c.Isolated("interrupted-install", c.N(64, 800), vf.IsoOpts{Batch: 1, Par: 16, Timeout: 90 * time.Second}, runInterruptedInstall)
+		c.Floor("interrupted_install_trials", 40)
+		c.Floor("installs_interrupted", 40)
 		c.Floor("trials", int64(n*8/10))
 		c.Floor("trials_unregister_overlapped_install", 20)
 		c.Floor("trials_create_overlapped_install", 20)
